@@ -778,24 +778,189 @@ func nilContract(c *Check, r *repoCtx, files map[string]bool) {
 	c.Set("nil_contract_deref_sites", nsites)
 }
 
-// lexerIndexes: every index expression of tllexer.go (function/expression), with the guard that makes it safe.
-var lexerIndexes = map[string]string{
-	"nameIdent/s[0]":           "local: `len(s) == 0 ||` precedes it in the same condition",
-	"nameIdent/s[i]":           "local: loop condition `i < len(s) &&`",
-	"builtinIdent/s[0]":        "local: `len(s) == 0 ||` precedes it in the same condition",
-	"builtinIdent/s[i]":        "local: loop condition `i < len(s) &&`",
-	"numberLexeme/s[i]":        "local: loop condition `i < len(s) &&`",
-	"checkPrimitive/l.str[0]":  "caller: nextToken is called only from the loop `for l.str != \"\"` of generateTokens, and checkPrimitive first thing in nextToken",
-	"nextToken/l.str[0]":       "caller: nextToken is called only from the loop `for l.str != \"\"` of generateTokens; no consumption before the switch",
-	"lexFunctionModifier/w[0]": "local: `w == \"\" ||` precedes it in the same condition",
-	"lexNumberSign/l.str[i]":   "local: loop condition `i < len(l.str) &&`",
-	"lexLexeme/l.str[len(w)]":  "local: `len(l.str) > len(w) &&` precedes it in the same condition",
-	"lexLexeme/ns[0]":          "ns = w + \".\" is non-empty by construction",
-	"lexLexeme/w[0]":           "w is a non-empty identifier: lexLexeme is entered only when the input starts with a letter (nameIdent returns at least that letter); the w2 replacement is taken only under w2 != \"\"",
+// lexerEntryFacts: index expressions of tllexer.go that no local guard justifies. Keys are name-independent
+// (receiver = recv, parameters = p<i>, a local = local(<what first defines it>)); each entry names the only caller
+// allowed and the syntactic context of the call that establishes the fact, and both are verified on every run.
+type lexerEntryFact struct {
+	onlyCaller string // the only function that may call this one
+	context    string // "first-in-loop-while-nonempty" | "first-case-of-leading-switch" | "case-guard:<canonical condition>"
+	reason     string
 }
 
+var lexerEntryFacts = map[string]lexerEntryFact{
+	"nextToken/recv.str[0]":         {"generateTokens", "first-in-loop-while-nonempty", "called only as the first statement of the loop `for input != \"\"`; nothing is consumed before the switch"},
+	"checkPrimitive/recv.str[0]":    {"nextToken", "first-case-of-leading-switch", "evaluated first thing in nextToken, whose input is non-empty"},
+	"lexLexeme/local(nameIdent)[0]": {"nextToken", "case-guard:letter(recv.str[0])", "entered only when the input starts with a letter, so nameIdent returns at least that letter; the replacement by the second identifier is taken only when that one is non-empty"},
+}
+
+// canonLocalNames maps every identifier of fn that denotes its receiver, a parameter or a local variable to a
+// name-independent spelling.
+func canonLocalNames(fi *FuncInfo) map[types.Object]string {
+	out := map[types.Object]string{}
+	info := fi.Pkg.TypesInfo
+	if fi.Decl.Recv != nil {
+		for _, f := range fi.Decl.Recv.List {
+			for _, n := range f.Names {
+				out[info.Defs[n]] = "recv"
+			}
+		}
+	}
+	k := 0
+	for _, f := range fi.Decl.Type.Params.List {
+		for _, n := range f.Names {
+			out[info.Defs[n]] = fmt.Sprintf("p%d", k)
+			k++
+		}
+	}
+	describe := func(e ast.Expr) string {
+		switch e := ast.Unparen(e).(type) {
+		case *ast.CallExpr:
+			switch f := e.Fun.(type) {
+			case *ast.Ident:
+				return f.Name
+			case *ast.SelectorExpr:
+				return f.Sel.Name
+			}
+		case *ast.BasicLit:
+			return e.Value
+		}
+		return "expr"
+	}
+	ast.Inspect(fi.Decl.Body, func(n ast.Node) bool {
+		switch n := n.(type) {
+		case *ast.AssignStmt:
+			if n.Tok != token.DEFINE {
+				return true
+			}
+			for i, l := range n.Lhs {
+				id, ok := l.(*ast.Ident)
+				if !ok || info.Defs[id] == nil {
+					continue
+				}
+				d := "expr"
+				if len(n.Rhs) == len(n.Lhs) {
+					d = describe(n.Rhs[i])
+				} else if len(n.Rhs) == 1 {
+					d = describe(n.Rhs[0])
+				}
+				out[info.Defs[id]] = "local(" + d + ")"
+			}
+		case *ast.ValueSpec:
+			for i, id := range n.Names {
+				d := "zero"
+				if i < len(n.Values) {
+					d = describe(n.Values[i])
+				}
+				out[info.Defs[id]] = "local(" + d + ")"
+			}
+		case *ast.RangeStmt:
+			for _, l := range []ast.Expr{n.Key, n.Value} {
+				if id, ok := l.(*ast.Ident); ok && info.Defs[id] != nil {
+					out[info.Defs[id]] = "local(range)"
+				}
+			}
+		}
+		return true
+	})
+	return out
+}
+
+// canonExpr spells e with local names replaced by their canonical spelling.
+func canonExpr(fi *FuncInfo, names map[types.Object]string, e ast.Expr) string {
+	txt := types.ExprString(e)
+	repl := map[string]string{}
+	ast.Inspect(e, func(n ast.Node) bool {
+		if id, ok := n.(*ast.Ident); ok {
+			if o := fi.Pkg.TypesInfo.Uses[id]; o != nil {
+				if c, ok := names[o]; ok {
+					repl[id.Name] = c
+				}
+			}
+		}
+		return true
+	})
+	for _, from := range sortedKeys(repl) {
+		txt = regexp.MustCompile(`(^|[^\w.])`+regexp.QuoteMeta(from)+`\b`).ReplaceAllString(txt, "${1}"+strings.ReplaceAll(repl[from], "$", "$$"))
+	}
+	return txt
+}
+
+// lexerCallContext reports in which syntactic context callee is called from the functions of the lexer file, and by whom.
+func lexerCallContext(r *repoCtx, lexFuncs map[string]*FuncInfo, callee string) (callers []string, contexts []string) {
+	for _, name := range sortedKeys(lexFuncs) {
+		fi := lexFuncs[name]
+		names := canonLocalNames(fi)
+		var stack []ast.Node
+		ast.Inspect(fi.Decl.Body, func(nd ast.Node) bool {
+			if nd == nil {
+				stack = stack[:len(stack)-1]
+				return true
+			}
+			stack = append(stack, nd)
+			call, ok := nd.(*ast.CallExpr)
+			if !ok {
+				return true
+			}
+			fn, _ := typeutil.Callee(fi.Pkg.TypesInfo, call).(*types.Func)
+			if fn == nil || fn.Name() != callee || fn.Pkg() != fi.Pkg.Types {
+				return true
+			}
+			callers = append(callers, name)
+			ctx := "other"
+			for i := len(stack) - 2; i >= 0; i-- {
+				switch p := stack[i].(type) {
+				case *ast.ForStmt:
+					if p.Cond != nil && len(p.Body.List) > 0 && astContains(p.Body.List[0], call) {
+						if be, ok := p.Cond.(*ast.BinaryExpr); ok && be.Op == token.NEQ && types.ExprString(be.Y) == `""` && canonExpr(fi, names, be.X) == "recv.str" {
+							ctx = "first-in-loop-while-nonempty"
+						}
+					}
+				case *ast.CaseClause:
+					// the call is in the body of a case: the guard is the case condition of a tag-less switch
+					inBody := false
+					for _, st := range p.Body {
+						if astContains(st, call) {
+							inBody = true
+						}
+					}
+					if inBody && len(p.List) == 1 {
+						if sw, ok := stack[i-2].(*ast.SwitchStmt); ok && sw.Tag == nil && ctx == "other" {
+							ctx = "case-guard:" + canonExpr(fi, names, p.List[0])
+						}
+					}
+					if !inBody && len(p.List) == 1 && p.List[0] == ast.Expr(call) {
+						if sw, ok := stack[i-2].(*ast.SwitchStmt); ok && sw.Tag == nil && sw.Init == nil && len(sw.Body.List) > 0 && sw.Body.List[0] == ast.Stmt(p) && len(fi.Decl.Body.List) > 0 && fi.Decl.Body.List[0] == ast.Stmt(sw) {
+							ctx = "first-case-of-leading-switch"
+						}
+					}
+				}
+				if ctx != "other" {
+					break
+				}
+			}
+			contexts = append(contexts, ctx)
+			return true
+		})
+	}
+	return
+}
+
+func astContains(root ast.Node, target ast.Node) bool {
+	found := false
+	ast.Inspect(root, func(n ast.Node) bool {
+		if n == target {
+			found = true
+		}
+		return !found
+	})
+	return found
+}
+
+// lexerIndexSites: every index into a string or byte slice in tllexer.go is justified either by a guard found in
+// the enclosing condition / loop / by construction, or by a verified entry fact of the function.
 func lexerIndexSites(c *Check, r *repoCtx) {
 	n := 0
+	lexFuncs := map[string]*FuncInfo{}
 	for name, fi := range r.funcs {
 		if !strings.HasPrefix(name, "internal/tlast.") || fi.Decl.Body == nil {
 			continue
@@ -803,7 +968,11 @@ func lexerIndexSites(c *Check, r *repoCtx) {
 		if filepath.Base(r.co.Fset.Position(fi.Decl.Pos()).Filename) != "tllexer.go" {
 			continue
 		}
-		fname := fi.Obj.Name()
+		lexFuncs[fi.Obj.Name()] = fi
+	}
+	for _, fname := range sortedKeys(lexFuncs) {
+		fi := lexFuncs[fname]
+		names := canonLocalNames(fi)
 		var stack []ast.Node
 		ast.Inspect(fi.Decl.Body, func(nd ast.Node) bool {
 			if nd == nil {
@@ -825,30 +994,126 @@ func lexerIndexSites(c *Check, r *repoCtx) {
 				}
 			}
 			n++
-			key := fname + "/" + types.ExprString(ix)
-			reason, listed := lexerIndexes[key]
-			okGuard := listed
-			detail := orStr(reason, "an index into the lexer input that is not in the triaged table: nothing shows that the input is long enough here")
-			if listed && strings.HasPrefix(reason, "local:") {
-				// verify the local guard: a `len(X)`-comparison or emptiness test on the same operand, earlier in the same && / || chain or loop condition
-				okGuard = false
-				xs := types.ExprString(ix.X)
+			key := fname + "/" + canonExpr(fi, names, ix)
+			xs := types.ExprString(ix.X)
+			okGuard, detail := false, ""
+			// (1) a `len(X)` comparison or emptiness test on the same operand, earlier in the same && / || chain, or in
+			// the condition of an enclosing loop
+			for i := len(stack) - 2; i >= 0 && !okGuard; i-- {
+				if fs, isFor := stack[i].(*ast.ForStmt); isFor && fs.Cond != nil && strings.Contains(types.ExprString(fs.Cond), "len("+xs+")") {
+					okGuard, detail = true, "inside a loop whose condition bounds the index by len("+xs+")"
+					break
+				}
+				be, isBin := stack[i].(*ast.BinaryExpr)
+				if !isBin || (be.Op != token.LAND && be.Op != token.LOR) || !astContains(be.Y, ix) {
+					continue
+				}
+				left := types.ExprString(be.X)
+				if strings.Contains(left, "len("+xs+")") || strings.Contains(left, xs+" == \"\"") || strings.Contains(left, xs+" != \"\"") {
+					okGuard, detail = true, "`"+left+"` precedes it in the same condition"
+				}
+			}
+			// (2) non-empty by construction: the operand is a local whose dominating assignment in an enclosing block is
+			// a concatenation with a non-empty string constant
+			if id, isID := ix.X.(*ast.Ident); !okGuard && isID {
+				obj := fi.Pkg.TypesInfo.Uses[id]
 				for i := len(stack) - 2; i >= 0 && !okGuard; i-- {
-					if fs, isFor := stack[i].(*ast.ForStmt); isFor && fs.Cond != nil && strings.Contains(types.ExprString(fs.Cond), "len("+xs+")") {
-						okGuard = true // inside the body of a loop whose condition bounds the index
-						break
-					}
-					be, isBin := stack[i].(*ast.BinaryExpr)
-					if !isBin || (be.Op != token.LAND && be.Op != token.LOR) {
+					bl, isBlock := stack[i].(*ast.BlockStmt)
+					if !isBlock {
 						continue
 					}
-					left := types.ExprString(be.X)
-					if strings.Contains(left, "len("+xs+")") || strings.Contains(left, xs+" == \"\"") || strings.Contains(left, xs+" != \"\"") {
-						okGuard = true
+					var last *ast.AssignStmt
+					for _, st := range bl.List {
+						if astContains(st, ix) {
+							break
+						}
+						ast.Inspect(st, func(x ast.Node) bool {
+							if as, ok := x.(*ast.AssignStmt); ok {
+								for _, l := range as.Lhs {
+									if lid, ok := l.(*ast.Ident); ok && (fi.Pkg.TypesInfo.Uses[lid] == obj || fi.Pkg.TypesInfo.Defs[lid] == obj) {
+										last = as
+										if !containsStmt(bl.List, as) {
+											last = nil // assigned in a nested statement: not a dominating definition
+										}
+									}
+								}
+							}
+							return true
+						})
+					}
+					if last != nil && len(last.Lhs) == 1 && len(last.Rhs) == 1 {
+						if be, ok := last.Rhs[0].(*ast.BinaryExpr); ok && be.Op == token.ADD {
+							for _, side := range []ast.Expr{be.X, be.Y} {
+								if tv, ok := fi.Pkg.TypesInfo.Types[side]; ok && tv.Value != nil && tv.Value.Kind() == constant.String && constant.StringVal(tv.Value) != "" {
+									okGuard, detail = true, "`"+types.ExprString(last.Lhs[0])+" = "+types.ExprString(last.Rhs[0])+"` dominates it: non-empty by construction"
+								}
+							}
+						}
+					}
+					if last != nil {
+						break
 					}
 				}
-				if !okGuard {
-					detail = "the local length guard stated in the table was not found: " + reason
+			}
+			// (3) a verified entry fact of this function
+			if !okGuard {
+				fact, listed := lexerEntryFacts[key]
+				if !listed {
+					detail = "an index into the lexer input with no length guard in its condition or loop and no entry fact for " + key + ": nothing shows that the input is long enough here"
+				} else {
+					callers, ctxs := lexerCallContext(r, lexFuncs, fname)
+					good := len(callers) > 0
+					for i := range callers {
+						if callers[i] != fact.onlyCaller || ctxs[i] != fact.context {
+							good = false
+						}
+					}
+					okGuard = good
+					detail = fmt.Sprintf("entry fact (%s): callers %v in contexts %v; required caller %s in context %s", fact.reason, callers, ctxs, fact.onlyCaller, fact.context)
+					// the fact holds at entry only: nothing may consume input before the index
+					if okGuard && !strings.HasPrefix(key, "lexLexeme/") {
+						ast.Inspect(fi.Decl.Body, func(x ast.Node) bool {
+							if cc, isCase := x.(*ast.CaseClause); isCase && !astContains(cc, ix) {
+								// the body of another case is not on a path to this index (no fallthrough in this file);
+								// its guard expressions are
+								for _, st := range cc.Body {
+									if b, isB := st.(*ast.BranchStmt); isB && b.Tok == token.FALLTHROUGH {
+										okGuard, detail = false, "a case falls through before this index"
+									}
+								}
+								for _, g := range cc.List {
+									ast.Inspect(g, func(y ast.Node) bool {
+										if call, ok := y.(*ast.CallExpr); ok && call.Pos() < ix.Pos() {
+											if fn, _ := typeutil.Callee(fi.Pkg.TypesInfo, call).(*types.Func); fn != nil && fn.Pkg() == fi.Pkg.Types {
+												if _, isLex := lexFuncs[fn.Name()]; isLex && fn.Type().(*types.Signature).Recv() != nil {
+													if _, isFact := lexerEntryFacts[fn.Name()+"/recv.str[0]"]; !isFact {
+														okGuard, detail = false, "the input may be consumed by "+fn.Name()+" before this index"
+													}
+												}
+											}
+										}
+										return true
+									})
+								}
+								return false
+							}
+							call, ok := x.(*ast.CallExpr)
+							if !ok || call.Pos() >= ix.Pos() {
+								return true
+							}
+							if fn, _ := typeutil.Callee(fi.Pkg.TypesInfo, call).(*types.Func); fn != nil && fn.Pkg() == fi.Pkg.Types {
+								if _, isLex := lexFuncs[fn.Name()]; isLex && fn.Type().(*types.Signature).Recv() != nil {
+									// a lexer method called before the index: allowed only when it is itself an entry-fact
+									// function evaluated as a case guard that returns when it consumed
+									if _, isFact := lexerEntryFacts[fn.Name()+"/recv.str[0]"]; !isFact {
+										okGuard = false
+										detail = "the input may be consumed by " + fn.Name() + " before this index"
+									}
+								}
+							}
+							return true
+						})
+					}
 				}
 			}
 			c.Ob("lexer/index-expression-guarded", key, okGuard, r.pos(ix.Pos()), detail)
@@ -857,4 +1122,13 @@ func lexerIndexSites(c *Check, r *repoCtx) {
 	}
 	c.Set("lexer_index_sites", n)
 	c.Floor("lexer/index-expression-guarded", 20)
+}
+
+func containsStmt(l []ast.Stmt, s ast.Stmt) bool {
+	for _, x := range l {
+		if x == s {
+			return true
+		}
+	}
+	return false
 }
